@@ -24,7 +24,7 @@ struct PolyMesh : public GeometricPolyhedralMeshV3d {
 
 enum PrimType {
   P_ADD_VERTEX, P_ADD_N_VERTICES, P_ADD_EDGE, P_ADD_FACE_V, P_ADD_FACE_HE, P_ADD_CELL,
-  P_SET_EDGE, P_SET_FACE, P_SET_CELL, P_DELETE, P_SWAP, P_GC, P_CLEAR,
+  P_SET_EDGE, P_SET_FACE, P_SET_CELL, P_DELETE, P_SWAP, P_GC, P_CLEAR, P_RESERVE,
   P_EN_VBU, P_EN_EBU, P_EN_FBU, P_EN_DEFERRED, P_EN_FAST, P_STATUS_MARK, P_STATUS_GC
 };
 
@@ -80,7 +80,7 @@ enum OpCode {
   O_SWAP_V, O_SWAP_E, O_SWAP_F, O_SWAP_C,
   O_GC, O_CLEAR, O_EN_VBU, O_EN_EBU, O_EN_FBU, O_EN_DEFERRED, O_EN_FAST,
   O_PROP_CREATE, O_PROP_WRITE, O_PROP_DROP, O_QUERY, O_STATUS_MARK, O_STATUS_GC,
-  O_ADD_RING, O_TRY_FACE, O_TRY_CELL,
+  O_ADD_RING, O_TRY_FACE, O_TRY_CELL, O_RESERVE,
   O_COUNT_
 };
 
@@ -95,7 +95,7 @@ inline const std::vector<OpInfo> &poly_optable() {
       {"enable_deferred", 1}, {"enable_fast", 1},
       {"prop_create", 4}, {"prop_write", 3}, {"prop_drop", 1}, {"query", 5},
       {"status_mark_deleted", 2}, {"status_garbage_collection", 5},
-      {"add_ring", 5}, {"try_add_face", 5}, {"try_add_cell", 5}};
+      {"add_ring", 5}, {"try_add_face", 5}, {"try_add_cell", 5}, {"reserve", 2}};
   return t;
 }
 
@@ -341,6 +341,14 @@ struct Interp {
     case P_CLEAR:
       m.clear(p.flag);
       s.lay.clear();
+      break;
+    case P_RESERVE:  // capacity only: nothing observable may change
+      switch (p.kind) {
+      case KV: m.reserve_vertices((size_t)p.n); break;
+      case KE: m.reserve_edges((size_t)p.n); break;
+      case KF: m.reserve_faces((size_t)p.n); break;
+      default: m.reserve_cells((size_t)p.n); break;
+      }
       break;
     case P_EN_VBU: if (s.follow_bu) { m.enable_vertex_bottom_up_incidences(p.flag); s.vbu = p.flag; } break;
     case P_EN_EBU: if (s.follow_bu) { m.enable_edge_bottom_up_incidences(p.flag); s.ebu = p.flag; } break;
@@ -841,6 +849,12 @@ struct Interp {
     }
     case O_GC: { Prim p; p.t = P_GC; p.render = "collect_garbage()"; return step(p); }
     case O_CLEAR: return prim_simple(P_CLEAR, a[0] & 1, "clear");
+    case O_RESERVE: {
+      static const char *nm[] = {"reserve_vertices", "reserve_edges", "reserve_faces", "reserve_cells"};
+      Prim p; p.t = P_RESERVE; p.kind = a[0] % 4; p.n = a[1] % 64;
+      p.render = std::string(nm[p.kind]) + "(" + std::to_string(p.n) + ")";
+      return step(p);
+    }
     case O_EN_VBU: return prim_simple(P_EN_VBU, a[0] & 1, "enable_vertex_bottom_up_incidences");
     case O_EN_EBU: return prim_simple(P_EN_EBU, a[0] & 1, "enable_edge_bottom_up_incidences");
     case O_EN_FBU: return prim_simple(P_EN_FBU, a[0] & 1, "enable_face_bottom_up_incidences");
